@@ -345,7 +345,9 @@ def runLexs (n : Nat) (d : Src) (name : Bytes) (fs : PFS) (banned : List Kind) (
           | (p, _) :: rest' =>
             if p.ty != .parameter then .error (incErr f lex.b .required)
             else
-              let path := d.slice p.b p.e1
+              -- the file name may be quoted, as every other parameter (F46)
+              let path := unescape (d.slice p.b p.e1)
+              if path.isEmpty then .error (incErr f lex.b .required) else
               match validName path with
               | .error _ => .error (incErr f lex.b .badName)
               | .ok _ =>
